@@ -162,7 +162,7 @@ theorem sim_exit (m : Option Nat) (hst : Stat K k sub) (hd : Dyn K k sub s) (hl 
       (sem (n+1) k (.cmd (.exit m)) (absEnv s)) := by
   cases m with
   | none =>
-    simp only [run, sem, stop_false_of_exit hx, Rel, Post, builtinExit, hst.kt]
+    simp only [run, sem, stop_false_of_exit hx, Rel, Post, builtinExit, hst.kt.1, hst.kt.2, Bool.or_self]
     refine ⟨rfl, hl.1, ?_, rfl, rfl, hd.csub, hd.ht, hd.cerr, hp, rfl⟩
     simp [absEnv]
   | some v =>
